@@ -11,7 +11,7 @@
    correspondence, the model's own composition (Transform.roundtrip) against it. *)
 From Verif Require Import Base.Str Base.Outcome Model.Ast Model.Token Model.Parser Model.Listener Model.Printer
   Model.Transform Spec.Sem Spec.Expressible Spec.Normalize Proofs.ListenerSem Proofs.ListenerFile Proofs.ParserShape Proofs.RoundTrip Proofs.Lossless Proofs.ParserTokens Proofs.AcceptedText
-  Proofs.ParserComplete Proofs.LexInversion Proofs.LexRender Proofs.RoundTripChars Proofs.DeclRoundTrip Proofs.DocLex Proofs.DocParse Proofs.DocChars Proofs.DocSem Proofs.DocPrepass Proofs.DocPrint Proofs.DocRoundTrip.
+  Proofs.ParserComplete Proofs.LexInversion Proofs.LexRender Proofs.RoundTripChars Proofs.DeclRoundTrip Proofs.DocLex Proofs.DocParse Proofs.DocChars Proofs.DocSem Proofs.DocPrepass Proofs.DocPrint Proofs.DocRoundTrip Proofs.DocStable.
 
 (* 1. what the parser can produce for a relation is always printable: carriable, at most one direct assignment,
       and that one in a position from which it can be written first *)
@@ -140,3 +140,20 @@ Proof. exact printed_model_reads_back. Qed.
 Theorem C01_reread_model_is_canonical : forall m, model_ok m ->
   reparsed m = {| m_schema := m_schema m; m_types := map canon_td (m_types m); m_conds := [] |}.
 Proof. exact reparsed_is_canonical. Qed.
+
+(* (d) the third clause: for a covered model whose rewrites are in the printer's normal form, printing the re-read model
+   gives the same BYTES as printing the model, and re-reading changes the model no further *)
+Theorem C01_second_round_is_stable : forall m, model_ok m -> normal_model m ->
+  fst (print_model false (reparsed m)) = fst (print_model false m) /\ reparsed (reparsed m) = reparsed m.
+Proof. exact second_round_is_stable. Qed.
+
+(* (e) ALL THREE CLAUSES from the text: whenever the DSL pipeline accepts a document and the model it returns is covered
+   (no conditions, no module information, plain names, restrictions where a direct assignment is), the model renders, the
+   rendering is accepted and gives the model in canonical form (the same relations as a map, C02_canonical_form_is_the_same_map),
+   and rendering that model gives the same bytes again *)
+Theorem C01_three_rounds : forall d m exts md,
+  dsl_to_model d = DOk m exts md -> model_ok m ->
+  exists t1 exts1 md1,
+    fst (print_model false m) = Ok t1 /\ dsl_to_model t1 = DOk (reparsed m) exts1 md1 /\
+    fst (print_model false (reparsed m)) = Ok t1 /\ reparsed (reparsed m) = reparsed m.
+Proof. exact accepted_document_three_rounds. Qed.
